@@ -127,6 +127,9 @@ example : Spec.Utf8.validUtf8 [0x5b, 0x22, 0xc3, 0xa9, 0xc3, 0xa9, 0xf0, 0x9f, 0
 example : (parseTop ⟨{}, .str, .value⟩ [0x5b, 0x22, 0xc3, 0xa9, 0xc3, 0xa9, 0xf0, 0x9f, 0x98, 0x80, 0x5c, 0x75, 0x30,
     0x30, 0x65, 0x39, 0x22, 0x2c, 0x31, 0x65, 0x39, 0x39, 0x39, 0x5d]).isErr .NumberOutOfRange 24 = true := by
   decide +kernel
+example : (parseTop ⟨{}, .slice, .value⟩ [0x5b, 0x22, 0xc3, 0xa9, 0xc3, 0xa9, 0xf0, 0x9f, 0x98, 0x80, 0x5c, 0x75, 0x30,
+    0x30, 0x65, 0x39, 0x22, 0x2c, 0x31, 0x65, 0x39, 0x39, 0x39, 0x5d]).isErr .NumberOutOfRange 24 = true := by
+  decide +kernel
 example : parseTop ⟨{}, .str, .value⟩ [0x5b, 0x22, 0xc3, 0xa9, 0xc3, 0xa9, 0xf0, 0x9f, 0x98, 0x80, 0x5c, 0x75, 0x30,
       0x30, 0x65, 0x39, 0x22, 0x5d] =
     .ok (.arr [.str [0xc3, 0xa9, 0xc3, 0xa9, 0xf0, 0x9f, 0x98, 0x80, 0xc3, 0xa9]]) := rfl
